@@ -645,7 +645,71 @@ Fixpoint merge_linear (fuel : nat) (src dst : tree) (it dit : iter) : tree * tre
            end
   end.
 
-(* TreeSet::MergeTo(TreeSet& dst) for equal memory managers; None = the fast concatenation path (not modelled) *)
+(* ---------- pvMergeFast(treeSet1, treeSet2): concatenation, all of tree 1 before all of tree 2 ---------- *)
+(* m new zero-item internal roots on top of the shorter tree (Node::Create(params, false, 0) + SetChild(0, root)) *)
+Fixpoint wrap (m : nat) (n : node) : node :=
+  match m with 0 => n | S m' => Node maxCap [] [wrap m' n] end.
+
+(* the separator taken from the shorter tree: its last item (shorter tree on the left, swap = false) or its first item
+   (on the right, swap = true); when that item sits in an internal node the empty edge subtree next to it is destroyed *)
+Definition drop_edge (swp : bool) (n : node) : node :=
+  if is_leaf n then Node (n_cap n) (if swp then tl (n_items n) else removelast (n_items n)) []
+  else Node (n_cap n) (if swp then tl (n_items n) else removelast (n_items n))
+            (if swp then tl (n_children n) else removelast (n_children n)).
+
+Definition edge_remove (swp : bool) (t : tree) : option (Z * node) :=
+  match root t with
+  | None => None
+  | Some r =>
+      let it := if swp then begin_iter t else prev t (end_iter t) in
+      match deref t it with
+      | Some x => Some (x, update_at (fst it) (drop_edge swp) r)
+      | None => None
+      end
+  end.
+
+(* climbing from the level of the shorter tree's root up the joining edge of the taller tree until an ancestor with
+   room is found; e = number of edge levels between n2 and that level.  None = every ancestor is full. *)
+Fixpoint fast_attach (e : nat) (swp : bool) (sep : Z) (small : node) (n2 : node) : option node :=
+  match e with
+  | 0 => None
+  | S e' =>
+      let c := if swp then n_count n2 else 0 in
+      let here_ :=
+        if n_count n2 <? maxCap then
+          Some (if swp then Node (n_cap n2) (n_items n2 ++ [sep]) (n_children n2 ++ [wrap e' small])
+                else Node (n_cap n2) (sep :: n_items n2) (wrap e' small :: n_children n2))
+        else None in
+      match nth_error (n_children n2) c with
+      | Some ch =>
+          match fast_attach e' swp sep small ch with
+          | Some ch' => Some (Node (n_cap n2) (n_items n2) (replace_at c ch' (n_children n2)))
+          | None => here_
+          end
+      | None => here_
+      end
+  end.
+
+(* result root of pvMergeFast: tl (left) and tr (right) are non-empty trees *)
+Definition merge_fast (tl_ tr : tree) : option node :=
+  match root tl_, root tr with
+  | Some rl, Some rr =>
+      let swp := height rr <? height rl in                      (* height1 > height2: the right tree is the shorter one *)
+      let small_t := if swp then tr else tl_ in
+      let big := if swp then rl else rr in
+      let e := if swp then height rl - height rr else height rr - height rl in
+      match edge_remove swp small_t with
+      | Some (sep, small) =>
+          match fast_attach e swp sep small big with
+          | Some r => Some r
+          | None => Some (Node maxCap [sep] (if swp then [big; wrap e small] else [wrap e small; big]))
+          end
+      | None => None
+      end
+  | _, _ => None
+  end.
+
+(* TreeSet::MergeTo(TreeSet& dst) for equal memory managers *)
 Definition merge_to (src dst : tree) : option (tree * tree) :=
   let count := cnt src in let dcount := cnt dst in
   if count =? 0 then Some (src, dst)
@@ -653,7 +717,16 @@ Definition merge_to (src dst : tree) : option (tree * tree) :=
   else
     let sl := contents src in let dl := contents dst in
     let sfirst := hd 0%Z sl in let slast := last sl 0%Z in let dfirst := hd 0%Z dl in let dlast := last dl 0%Z in
-    if key_ordered dlast sfirst || (slast <? dfirst)%Z then None
+    if key_ordered dlast sfirst then
+      match merge_fast dst src with
+      | Some r => Some ({| root := None; cnt := 0 |}, {| root := Some r; cnt := dcount + count |})
+      | None => None
+      end
+    else if (slast <? dfirst)%Z then
+      match merge_fast src dst with
+      | Some r => Some ({| root := None; cnt := 0 |}, {| root := Some r; cnt := dcount + count |})
+      | None => None
+      end
     else if count * Nat.log2 (count + dcount) <? count + dcount
          then Some (merge_generic (S count) src dst (begin_iter src))
          else Some (merge_linear (S (count + dcount)) src dst (begin_iter src) (begin_iter dst)).
